@@ -127,6 +127,31 @@ def eval_bool(fn, n, env, subst):
     return env(n)
 
 
+def ack_every_segment_rule(run):
+    """Every payload or error packet that reaches an established connection is acknowledged - in order or not: the ACK is
+    what takes the segment out of the sender's in-flight count, and a segment parked in the reorder buffer has arrived
+    just as much as one delivered at once.  The forward of the locally built ACK therefore precedes both the insertion
+    into the reorder buffer and the push onto the incoming queue."""
+    fx = run.fx
+    run.clause('every segment that arrives is acknowledged, also one that arrives out of order: the ACK leaves before the segment is parked or queued')
+    ip = fx.fn1(T + '::incoming_packet')
+    run.touch(ip)
+    import p07 as _p07
+    acks = [c for c in ip.calls() if q.callee_name(c) == 'sim::forward_packet' and 'ack' in ((_p07.built_packet(ip, c) or {}).get('type', ''))]
+    parks = [c for c in ip.calls() if (c.get('callee') or '').split('::')[-1] in ('emplace', 'insert', 'emplace_hint', 'try_emplace') and is_node(c.get('obj')) and q.render(ip, c['obj']).replace('this->', '') == 'm_reorder_buffer']
+    parks += [n for n in ip.all_nodes() if n['k'] == 'call' and n.get('opc') == '=' and n.get('args') and 'm_reorder_buffer[' in q.render(ip, n['args'][0])]
+    pushes = [c for c in ip.calls() if (c.get('callee') or '').split('::')[-1] in ('push_back', 'emplace_back') and is_node(c.get('obj')) and q.render(ip, c['obj']).replace('this->', '') == 'm_incoming_queue']
+    if not acks or not parks or not pushes:
+        run.broke('tcp::socket::incoming_packet: ACK forward (%d), reorder-buffer insert (%d) or incoming-queue push (%d) not found' % (len(acks), len(parks), len(pushes)))
+        return
+    # (segments released FROM the reorder buffer were acknowledged when they arrived: only the arrival sites count)
+    arrivals = parks + [c for c in pushes if not any(ip.cfg.node_block(c) in ip.cfg.reach_from(ip.cfg.node_block(c)) for _ in [0])]
+    for c in arrivals:
+        run.check(q.any_precedes(ip, acks, c), 'R10', 'ack-every-arrival', '%s: %s' % (T + '::incoming_packet', q.render(ip, c)[:50]), ip.loc(c),
+                  'a segment is %s on a path that has not sent its ACK: a segment that arrives out of order is never acknowledged, stays in the sender\'s in-flight count for good, and after a drop the window never re-opens - the dropped segment waits unsent with the peer\'s read pending'
+                  % ('parked in the reorder buffer' if c in parks else 'queued for the reader'), 'the ACK forward precedes it')
+
+
 def check(run):
     fx = run.fx
     ip = fx.fn1(T + '::incoming_packet')
@@ -402,6 +427,10 @@ def check(run):
     run.clause('a reused socket object delivers: close(ec) resets every per-connection field (sequence numbers, windows, queues) on every normal path, so the next connection\'s first segment is the one the receiver expects (shared with C05/C07)')
     import p05
     p05.close_resets_rule(run)
+    run.clause('a hop shared by both directions of a link never strands a packet: what next_packet_sent() decides after handing a packet on is decided from the queue as it is then (shared with C09/C10)')
+    import p09 as _p09
+    _p09.reentrancy_rule(run)
+    ack_every_segment_rule(run)
     run.floor('R10', 5)
     run.floor('R9', 3)
 
